@@ -11,6 +11,9 @@ CHECKS = {
  "C02": dict(level="exploration", ref="7/C02",
    text="Seeded search plus the systematic product {SMTP, LMTP plain, LMTP per-recipient} x backend {reads all, k, nothing} x {accept, SMTPError, plain error} x size limit {none, below, at, above}: a DATA message stuffed with bait command lines and end-marker look-alikes, followed by pipelined marker commands. Oracles: no bait address ever reaches the backend, exactly the expected replies arrive with each marker's own outcome, the marker MAIL reaches the backend, the message the backend saw is the reference unstuffing (or a prefix when it read less). A fault stratum stalls the client inside the message past ReadTimeout.",
    note="Trusts the reference unstuffer and the strict reply splitter; acceptance of the message is not judged here."),
+ "C05": dict(level="exploration", ref="7/C05",
+   text="Seeded search plus a systematic sweep over session state {valid envelope, no MAIL, every RCPT rejected} x size limit {off, below the total}: a message cut into 1-5 BDAT chunks (sizes 0..9000, LAST anywhere or missing, malformed variants) whose payloads contain end markers, bait commands, binary octets and LF-free runs around and above MaxLineLength, a NOOP marker after every chunk, lock-step or fully pipelined under drawn segmentation. Oracles: expected reply sequence from a reference chunk framer, no bait address at the backend, marker MAIL executed, exactly one Data call whose octets equal the concatenation of the accepted payloads with EOF only after LAST.",
+   note="Trusts the reference chunk framer (written from RFC 3030 and the property statement); refusal replies are judged to be 5xx, not for their exact code; a BDAT without a usable size is sent without payload."),
  "C01": dict(level="exploration", ref="7/C01",
    text="Seeded search plus a systematic sweep of all 5461 bodies over the byte classes {'.',CR,LF,other} up to length 6, each run under a drawn transport segmentation, server short-read plan and backend read-size plan; the octets and terminal error the real dataReader hands the backend are compared with an RFC 5321 reference unstuffer. Sampling, not proof: evidence of byte-exactness over the explored streams x schedules.",
    note="Trusts: the reference unstuffer (cross-checked against a reference stuffer), Go's testing/synctest fake clock, go1.26.8 building go-smtp the same way go1.23.5 does."),
